@@ -897,6 +897,26 @@ func main() {
 				killed = false
 			}
 		}
+		// measured: ONE block destructs the contract and re-funds / re-creates the same address (both receipts successful, the
+		// address exists afterwards), and a LATER block pays it directly or through the forwarder
+		both := false
+		for k, b := range j.blocks {
+			o := cr.ref[k]
+			nm := seqName(b)
+			allOK := len(o.Receipts) == len(b)
+			for _, rc := range o.Receipts {
+				allOK = allOK && rc.Status == 1
+			}
+			switch {
+			case (nm == "killA,payA" || nm == "killA,mk2B") && allOK && strings.HasPrefix(o.ReadBack, "exists=true"):
+				both = true
+			case both && (nm == "payA" || nm == "fwdA") && allOK:
+				cmu.Lock()
+				recreatedInBlock++
+				cmu.Unlock()
+				both = false
+			}
+		}
 		if nontrivial {
 			r.Distinct("distinct_nontrivial", "chain:"+j.describe(len(j.blocks)-1))
 		}
@@ -913,6 +933,7 @@ func main() {
 	r.Set("snapshot_flattenings", flattenings.Load())
 	r.Set("chain_variants", nChainVariants)
 	r.Set("chains_recreating_the_contract_at_the_same_address_after_selfdestruct", recreated)
+	r.Set("chains_destructing_and_recreating_in_one_block_then_paying_the_address", recreatedInBlock)
 	r.Set("chains_clearing_a_genesis_slot_then_reading_it", clearThenRead)
 
 	// 3. blocks
@@ -1169,6 +1190,8 @@ func main() {
 		"{cache configuration} x {repetition} x {warm, cold restart} and once through the proposer path; evaluations = executions of the block under test by BlockExecutor.ApplyBlock (validator_report_evaluations are counted separately); "+
 		"distinct_nontrivial = distinct (template sequence, parent state) whose reference execution executed >= 1 transaction successfully or skipped >= 1 transaction (measured from receipts); "+
 		"chains = every sequence of "+fmt.Sprint(chainBlocks)+" consecutive blocks, each holding <= 1 transaction of {(empty), "+strings.Join(chainLetterNames[1:], ", ")+"}, on the parent states "+strings.Join(cpn, ", ")+
+		" (the +factory parent states: every sequence of 2 blocks over the block letters {"+strings.Join(recreateLetters, " | ")+"}, where 'killA,payA' and 'killA,mk2B' are blocks of TWO transactions that destruct the contract and re-fund / re-create the same address within one block, "+
+		"payA pays the address directly and fwdA through a forwarder contract (CALL with value, then BALANCE and EXTCODESIZE); thorough additionally every 3-block sequence over {(empty), setB, clrA, readB, killA, mk2B})"+
 		" whose multi-purpose contract is part of the GENESIS allocation with non-zero values in slots 1..5 (resident in the snapshot disk layer), built block after block through the real proposer path, executed on fresh nodes under "+
 		fmt.Sprint(nChainVariants)+" variants {cache configuration} x {repetition} x {no restart, clean restart between blocks, restart that enables snapshots (snapshot regenerated from the head state)} x "+
 		"{snapshot layers as they come, all diff layers merged into the disk layer after every block (Tree.Cap(root,0)) on a long-running node} and compared field by field after EVERY block, "+
@@ -1187,6 +1210,7 @@ func main() {
 		r.Require(clearThenRead > 0, "no chain cleared a non-zero genesis slot in one block and read it in a later block")
 		r.Require(readOK > 0, "template readB never executed successfully in a chain")
 		r.Require(recreated > 0, "no chain re-created the contract at the same address after a self-destruct")
+		r.Require(recreatedInBlock > 0, "no chain destructed and re-funded/re-created the contract's address within one block and paid it in a later block")
 		r.Require(flattenings.Load() > 0, "the snapshot was never flattened to disk (Tree.Cap(root, 0) never succeeded)")
 		for _, t := range alphabet {
 			if t.ChainOnly {
